@@ -36,6 +36,7 @@ class Counter:
     def __init__(self):
         self.items = 0
         self.calls = 0
+        self.limits = []
         self.orig = bracex.iexpand
 
     def install(self):
@@ -44,6 +45,7 @@ class Counter:
 
         def counting(*a, **kw):
             me.calls += 1
+            me.limits.append(kw.get('limit', a[2] if len(a) > 2 else None))
             for x in orig(*a, **kw):
                 me.items += 1
                 yield x
@@ -55,6 +57,7 @@ class Counter:
     def reset(self):
         self.items = 0
         self.calls = 0
+        self.limits = []
 
 
 def pat_with(n, style, tag):
@@ -215,6 +218,11 @@ def one_case(ctx, mon, entry, incl_spec, excl_spec, L, root, inline=False, key=N
             ctx.disagree(f'{entry}: PatternLimitException although T <= L' + (' (omitted limit)' if L is None else ''), wit, fid2)
     else:
         ctx.count('gray_zone')
+    if eff > 0 and any((lim is None or lim <= 0 or lim > eff) for lim in mon.limits):
+        # bracex is handed no limit (0 = unlimited) or a larger one: a big brace range is then materialised inside bracex
+        # before wcmatch's own count can stop it, whatever is raised afterwards
+        ctx.disagree(f'{entry}: brace expansion is started without an effective limit (expansion work not bounded by L)',
+                     dict(wit, limits_passed_to_bracex=[repr(x) for x in mon.limits[:8]]))
     if eff > 0 and items > eff + 1 + npats:
         ctx.disagree(f'{entry}: expansion work exceeds L+1 (+1 per pattern)', wit, fid)
     if abs(D - eff) <= 1 or abs(T - eff) <= 1 or T >= 1000 * max(eff, 1):
@@ -277,6 +285,11 @@ def run(ctx):
                                     if inline and ('SPLIT' in nde):
                                         continue
                                     one_case(ctx, mon, entry, [(i_, ndi, ni, ni)], [(e, nde, ne, ne)], L, root, inline=inline)
+                        # (3b) budget used up exactly by the first pattern, then a big range / more patterns
+                        e1, n1 = pat_with(L, style, 'u')
+                        one_case(ctx, mon, entry, [(e1, n1, L, L), ('{1..300000}', {'BRACE'}, 300000, 300000)], [], L, root)
+                        one_case(ctx, mon, entry, [(e1, n1, L, L), ('w1', set(), 1, 1), ('w2', set(), 1, 1)], [], L, root)
+                        one_case(ctx, mon, entry, [(e1, n1, L, L)], [('{1..300000}', {'BRACE'}, 300000, 300000)], L, root)
                         # (4) fail fast on huge expansions
                         for big in (f'{{1..{1000 * L}}}', '{1..100000000}', '{a,b}{1..50000000}'):
                             nbig = 1000 * L if big.startswith('{1..1') and big != '{1..100000000}' else 100000000
